@@ -1,5 +1,6 @@
 // C15: Json parser totality/cursor safety, toString/parse round trip, stripComments vs. a reference state machine.
 #include <nstd/Document/Json.hpp>
+#include <nstd/Unicode.hpp>
 #include "vf.h"
 
 #ifndef VF_LEN
@@ -124,6 +125,39 @@ extern "C" int strip()
     const char* p = out;
     for(unsigned k = 0; k < r; ++k) vf_assert(p[k] == ref[k], "stripComments: byte == reference");
   }
+  vf_reach("end");
+  return 0;
+}
+
+// ---- \uXXXX escapes: four characters from {0,8,D,d,f,g} (hex and non-hex), optional low surrogate afterwards
+static int hexval(char c) { return c >= '0' && c <= '9' ? c - '0' : c >= 'a' && c <= 'f' ? c - 'a' + 10 : c >= 'A' && c <= 'F' ? c - 'A' + 10 : -1; }
+extern "C" int unicode_escape()
+{
+  char text[24]; unsigned n = 0;
+  text[n++] = '"'; text[n++] = '\\'; text[n++] = 'u';
+  int w1 = 0; bool hex = true;
+  for(unsigned i = 0; i < 4; ++i) { byte b = vf_u8(); vf_assume((b == '0') | (b == '8') | (b == 'D') | (b == 'd') | (b == 'f') | (b == 'g')); text[n++] = (char)b; int h = hexval((char)b); if(h < 0) hex = false; else w1 = w1 * 16 + h; }
+  bool high = hex && (w1 & 0xFC00) == 0xD800;
+  bool withLow = vf_pick(2);
+  if(withLow) { const char* low = "\\uDc01"; for(unsigned i = 0; low[i]; ++i) text[n++] = low[i]; }
+  text[n++] = '"'; text[n] = 0;
+  char* buf = (char*)vf_alloc(n + 1); for(unsigned i = 0; i <= n; ++i) buf[i] = text[i];
+  {
+    Json::Parser parser; Variant v;
+    bool ok = parser.parse(buf, v);
+    if(!hex) vf_assert(!ok, "non-hexadecimal \\u escape is rejected");
+    else if(high && !withLow) vf_assert(!ok, "a high surrogate without its low surrogate is rejected");
+    else
+    {
+      vf_assert(ok, "well-formed \\u escape parses");
+      uint32 cp = high ? (((uint32)(w1 & 0x3FF) << 10) | 0x001) + 0x10000 : (uint32)w1;
+      String want = Unicode::toString(cp);
+      if(withLow && !high) want.append(Unicode::toString(0xDC01));      // the second escape stands alone
+      vf_assert(v.toString() == want, "\\u escape decodes to the UTF-8 form of the code point (surrogate pairs combined)");
+    }
+    if(!ok) { vf_assert(parser.getErrorLine() == 1, "error line"); vf_assert(parser.getErrorColumn() >= 1 && (unsigned)parser.getErrorColumn() <= n + 1, "error column lies inside the text"); }
+  }
+  vf_free(buf);
   vf_reach("end");
   return 0;
 }
